@@ -90,6 +90,25 @@ func race(path string, timeout time.Duration, need2 bool, order []int) raceResul
 		wg.Add(1)
 		go func() {
 			defer wg.Done()
+			if sp.Name == "cvc5" {
+				// cvc5 refuses scripts with array-indexed arrays: give it the query with the assumptions
+				// about such maps removed; only an unsat answer on that weaker query is kept (see slice.go)
+				if b, err := os.ReadFile(path); err == nil {
+					if sl, ok := sliceArrayKeyed(string(b)); ok {
+						sp2 := path + ".sliced"
+						if os.WriteFile(sp2, []byte(sl), 0o644) == nil {
+							r := runSolver(ctx, sp, sp2, timeout)
+							r.solver = "cvc5/sliced"
+							if r.status == "sat" || r.status == "unknown" {
+								r.status = "unknown"
+								r.out = "answer on the sliced query discarded: " + firstLines(r.out, 1)
+							}
+							ch <- r
+							return
+						}
+					}
+				}
+			}
 			ch <- runSolver(ctx, sp, path, timeout)
 		}()
 	}
